@@ -460,6 +460,10 @@ func (ref *Node) DoClearField(r node.FieldRequest) error {
 }
 
 func (ref *Node) DoSetField(r node.FieldRequest, v val.Value) error {
+	if v == nil {
+		// writing no value is clearing
+		return ref.DoClearField(r)
+	}
 	return ref.writeValue(r.Meta, reflect.ValueOf(ref.getValue(v)))
 }
 
@@ -632,6 +636,10 @@ func (ref *Node) DoGetByRow(r node.ListRequest) (node.Node, []val.Value, error) 
 		key = make([]val.Value, len(keyVals))
 		var err error
 		for i := 0; i < len(keyVals); i++ {
+			if !keyVals[i].IsValid() {
+				// item without (part of) its key
+				continue
+			}
 			if key[i], err = node.NewValue(r.Meta.KeyMeta()[i].Type(), keyVals[i].Interface()); err != nil {
 				return nil, nil, err
 			}
